@@ -279,6 +279,8 @@ def pred_event_card(d):
             f = pred_card({"orbit": orb, "modes": m})
             if f:
                 return [(f[0][0], "event_cardinality(%d,%d,%d) = %r, exact count %d; caused by: %s" % (k, c, m, v, e, f[0][1]))]
+    if m > 170 and isinstance(v, float):
+        return [("event_cardinality:float-sum:modes>170", "event_cardinality(%d,%d,%d) = %r, exact count %d: the per-orbit cardinalities come back as floats for modes > 170 and their sum is rounded" % (k, c, m, v, e))]
     return [("event_cardinality:wrong-sum", "event_cardinality(%d,%d,%d) = %r, exact count %d" % (k, c, m, v, e))]
 
 
